@@ -404,3 +404,6 @@ theorem xt_sequence (rD rE aD aE : Members) (x : Bool) (hcm : CompatMembers rD r
         exact St.eq_of_pos _ (by omega)
 
 end Asn1.Ext.PerX
+
+#print axioms Asn1.Ext.PerX.xt_sequence
+#print axioms Asn1.Ext.PerX.skipUnknown_enc
